@@ -419,7 +419,14 @@ def simplify_unitary(expr: e.Expr, t_name: str,
                     continue
                 else:
                     new_term *= o
-            return simplify_term_unitary(new_term.terms[0])
+            if len(new_term) == 1:
+                return simplify_term_unitary(new_term.terms[0])
+            # the delta evaluated to 1 and the remainder is a sum: the
+            # product is no longer a single term
+            ret = e.Expr(0, **term.assumptions)
+            for new_t in new_term.terms:
+                ret += simplify_term_unitary(new_t)
+            return ret
         # could not find simplification -> return
         return term
 
